@@ -47,6 +47,11 @@ def gen_cases(tier):
         else:
             continue
         pairs = []
+        if i % 3 == 1:
+            # interface variables that no constraint mentions: renaming them is bookkeeping only, and still has to happen
+            d["inv"], d["outv"] = d["inv"] + ["u"], d["outv"] + ["q"]
+            inv, outv = d["inv"], d["outv"]
+            pairs += [("u", "fresh"), ("u", rng.choice(inv[:-1])), ("u", rng.choice(outv)), ("q", "fresh"), ("q", rng.choice(outv[:-1])), ("q", rng.choice(inv))]
         for s in rng.sample(inv + outv, min(3, len(inv + outv))):
             pairs.append((s, "fresh"))
             pairs.append((s, rng.choice(inv)))
@@ -55,9 +60,11 @@ def gen_cases(tier):
         pairs.append(("absent", rng.choice(inv)))
         pairs.append((rng.choice(inv), rng.choice(inv)))
         if tier == "quick":
-            pairs = rng.sample(pairs, 6)
+            pairs = pairs[:4] + rng.sample(pairs[4:], 4) if i % 3 == 1 else rng.sample(pairs, 6)
         allv = inv + outv
         a, b = rng.choice(allv), rng.choice(allv)
+        if i % 3 == 1 and rng.random() < 0.7:
+            b = rng.choice(["u", "q"])
         lists = [
             [(a, "tmp_v"), (b, a), ("tmp_v", b)],                      # swap through a temporary name
             [(a, "tmp_v"), ("tmp_v", a)],                              # there and back
@@ -90,7 +97,7 @@ def main(tier, replay=None):
     return opsprop.run(
         PROP, tier, gen_cases(tier), run_case,
         "one trace per contract, one event per (source, target) class: target fresh / existing input / existing output, "
-        "source absent, source = target; TLC computes the substituted contract itself (coefficient addition) and demands "
+        "source absent, source = target, source an interface variable that no constraint mentions; TLC computes the substituted contract itself (coefficient addition) and demands "
         "semantic equality; non-trivial = source occurs in the contract and the call returned",
         replay=replay,
         nontrivial=lambda ev: ev["exc"] == "none" and (ev["op"] == "renames" or (ev["s"] in (ev["c1"]["inv"] + ev["c1"]["outv"]) and ev["s"] != ev["t"])),
